@@ -60,7 +60,7 @@ PROPS = {
              "over UDP and over TCP. distinct = (outcome kind: same / tc / partial, size bucket of the complete response); the UDP response buffer handed to the server is the configured payload size, slightly larger, random, or 65535 octets (the limit must come from the server, not from the buffer); a third of the scenarios carry TSIG keys (key names related to zone names, up to 190 octets) and a third of their requests are validly signed, so the space taken by the TSIG record takes part in every size decision (the comparison with the TCP response then ignores the TSIG records themselves); a quarter of the requests in key scenarios have a QNAME of 200-255 octets below a loaded zone, so that question + TSIG record approach and exceed 512 octets. Not judged: TC over UDP when the TCP outcome is a SERVFAIL reached only after writing a CNAME chain (the server cannot foresee it); a sixth of the scenarios have rate limiting on (there only 'TCP never sets TC' and the UDP size limit are judged); MX fan-outs as in C01 make optional address RRsets stop and start fitting in the middle of a response",
         assumptions=COMMON_ASSUMPTIONS + ["no TSIG and no RRL in this workload (byte-equality of the twin responses)"],
         quick=plans(dict(build="dbg", nshards=16)),
-        thorough=plans(dict(build="dbg", nshards=16), dict(build="rel", nshards=16), dict(build="asan", nshards=16, scale=0.2), dict(build="miri", nshards=16, timeout=3000)),
+        thorough=plans(dict(build="dbg", nshards=16), dict(build="rel", nshards=16), dict(build="asan", nshards=16, scale=0.05), dict(build="miri", nshards=16, timeout=3000)),
         min_evaluations=50000,
     ),
     "C05": dict(
